@@ -373,4 +373,15 @@ def judge(case, out):
         bad.append(("lookup", "after the history the program sees %s, the requested libraries define %s" % (wh["library"], lib)))
     if not defined_here and fr["outcome"] == "ok" and fr["library"] != wh["library"]:
         bad.append(("lookup", "history dependence: fresh process %s, with history %s" % (fr["library"], wh["library"])))
+    # name resolution (find_command_class): exact names resolve to the table's entry; whatever any spelling resolves to comes from a requested
+    # library and does not depend on the history
+    res = wh.get("resolved", {})
+    for n, origin in sorted(res.items()):
+        if n in lib and origin != lib[n]:
+            bad.append(("lookup", "%r resolves to %s, the requested libraries define it in %s" % (n, origin, lib[n])))
+        elif origin is not None and not any(origin == l or origin.startswith(l + ".") for l in case["final"]):
+            bad.append(("lookup", "%r resolves to %s, which belongs to none of the requested libraries %s" % (n, origin, case["final"])))
+    if not defined_here and fr["outcome"] == "ok" and fr.get("resolved", {}) != res:
+        diff = [n for n in res if res[n] != fr.get("resolved", {}).get(n)]
+        bad.append(("lookup", "history dependence of name resolution: %s" % diff[:4]))
     return bad
